@@ -230,6 +230,78 @@ def fft_walks(ck, seed, nwalks, steps):
     ck.nontrivial("fft_walks")
 
 
+def extract_then_edit(ck, prop="C06", n=4):
+    """Directed histories with TWO live trees: a clone's subtree is extracted (the host keeps it, as between the two halves
+    of a prune-regraft / subtree move), then ONE of the two trees is edited in place - a data point added to and removed
+    from a clone, clones relabelled - and BOTH trees are compared with fresh rebuilds of the forests they represent."""
+    from .. import gridoracle
+    dist = make_dist()
+    tab = gridoracle.int_tables(n, 2, 4, 23 + ck.seed, lo=1, hi=6)
+    data = gridoracle.data_from_tables(tab, outlier_prob=0.2)
+    extra = data[n - 1]
+    res = tlc.run_tlc("%s_forests_x" % prop.lower(), "Density", tlc.cfg_text(constants={"N": n - 1, "OutliersOn": "FALSE", "Dump": "TRUE", "Starts": "{}"}, invariants=["FeatConsistent", "Emit"]), timeout=1500)
+    tlc.require_ok(res, "Density (forests for extract-then-edit)")
+    ck.add_tlc("Density.tla N=%d: forests for the extract-then-edit histories" % (n - 1), res)
+    keys = sorted({absstate.canon(x["st"]) for x in res.json_prints if absstate.data_ids(absstate.canon(x["st"])) == set(range(n - 1))}, key=absstate.key_str)
+    nsteps = 0
+
+    def judge(t, what, ctx):
+        try:
+            absstate.project(t, full=True)
+            return treeadt.compare_with_fresh(t, data, dist, 1e-8)
+        except absstate.Inconsistent as ex:
+            return "malformed tree: %s" % ex
+
+    for key in keys:
+        if len(key[0]) < 2:
+            continue
+        base = absstate.build(key, data)
+        _, conc = absstate.project(base, full=False)
+        for v in conc["names"]:
+            ctx = {"state": absstate.to_json(key), "extracted": sorted(conc["clade"][v])}
+            try:
+                for edited in ("host", "subtree", "subtree_relabelled"):
+                    host = base.copy()
+                    sub = host.get_subtree(v)
+                    _, csub = absstate.project(sub, full=False)
+                    _, chost = absstate.project(host, full=False)
+                    target_tree, names = (host, chost["names"]) if edited == "host" else (sub, csub["names"])
+                    if edited == "subtree_relabelled":
+                        sub.relabel_nodes()
+                        steps = [("the extracted subtree was relabelled", None)]
+                    else:
+                        steps = []
+                        for m in names:
+                            target_tree.add_data_point_to_node(extra, m)
+                            steps.append(("data point %d was added to clone %s of the %s" % (extra.idx, m, edited), None))
+                            for t, nm in ((host, "host"), (sub, "extracted subtree")):
+                                nsteps += 1
+                                msg = judge(t, nm, ctx)
+                                if msg:
+                                    raise _Stale("%s after %s: %s" % (nm, steps[-1][0], msg))
+                            target_tree.remove_data_point_from_node(extra, m)
+                            steps.append(("... and removed again", None))
+                    for t, nm in ((host, "host"), (sub, "extracted subtree")):
+                        nsteps += 1
+                        msg = judge(t, nm, ctx)
+                        if msg:
+                            raise _Stale("%s after %s: %s" % (nm, steps[-1][0] if steps else "extraction", msg))
+            except _Stale as ex:
+                ck.violation("%s|extract_then_edit|stale" % prop, "forest %s, subtree of clone %s extracted (host keeps it): %s" % (absstate.key_str(key), ctx["extracted"], ex), ctx)
+            except Exception as ex:  # noqa
+                import traceback
+                if not any("/phyclone/" in f.filename for f in traceback.extract_tb(ex.__traceback__)):
+                    raise
+                ck.violation("%s|extract_then_edit|exception" % prop, "forest %s, subtree of clone %s extracted, then an in-place edit raised %s: %s" % (absstate.key_str(key), ctx["extracted"], type(ex).__name__, ex), ctx)
+        ck.nontrivial("extract_then_edit:" + absstate.key_str(key))
+    ck.evaluations += nsteps
+    ck.extra["extract_then_edit_comparisons"] = nsteps
+
+
+class _Stale(Exception):
+    pass
+
+
 def run(corrupt=None):
     ck = Check("C06")
     env.use_repo()
@@ -278,6 +350,7 @@ def run(corrupt=None):
         if edges:
             ck.sample({"walk_step": edges[-1]})
     fft_walks(ck, ck.seed, (30 if ck.tier == "thorough" else 10), 40)
+    extract_then_edit(ck, "C06", 5 if ck.tier == "thorough" else 4)
     ck.rule = ("all edges of the TreeADT grammar closure on 3 data points (outliers on) realised by the real Tree, each applied to a restored "
                "copy (copy / from_dict / pickled dict in rotation), for an integer-table and a real-valued data set; distinct_nontrivial = "
                "distinct real (cur, sub, mode) states reached")
